@@ -41,6 +41,7 @@ type Machine struct {
 	predCache map[string]tri
 	inlineDepth int
 	retTok      int
+	marks       map[types.Object]bool
 }
 
 func (m *Machine) info() *types.Info { return m.Pkg.TypesInfo }
